@@ -179,4 +179,65 @@ theorem abort_safe {s0 : FS} {fd : Nat} {tmp path : String} {trunc : Bool} {chun
     | none => rfl
     | some i => simp [hfin.ino i hp0]
 
+/-! ### the atomic-replace shape is an instance of the discipline -/
+
+theorem disciplined_append (path : String) (a b : List Op) : ∀ s,
+    disciplined path s (a ++ b) = (disciplined path s a && disciplined path (run a s) b) := by
+  induction a with
+  | nil => intro s; simp [disciplined, run]
+  | cons op r ih => intro s; simp [disciplined, ih, run_cons, Bool.and_assoc]
+
+theorem published_append (path : String) (a b : List Op) : ∀ s,
+    published path s (a ++ b) = published path s a ++ published path (run a s) b := by
+  induction a with
+  | nil => intro s; simp [published, run]
+  | cons op r ih => intro s; simp [published, ih, run_cons]
+
+theorem harmless_disciplined (path : String) (l : List Op) : ∀ s, (∀ op ∈ l, op.harmless = true) →
+    disciplined path s l = true ∧ published path s l = [] := by
+  induction l with
+  | nil => intro s _; exact ⟨rfl, rfl⟩
+  | cons op r ih =>
+    intro s hl
+    have h1 := hl op List.mem_cons_self
+    have h2 := ih (step s op) (fun o ho => hl o (List.mem_cons_of_mem _ ho))
+    cases op <;> simp [Op.harmless] at h1 <;> simp [disciplined, published, opOK, pubOf, h2]
+
+theorem atomicTrace_disciplined {s0 : FS} {fd : Nat} {tmp path : String} {trunc : Bool} {chunks : List Bytes}
+    {tail : List Op} (hq : Quiescent s0 path) (hfresh : s0.dir tmp = none) (hne : tmp ≠ path)
+    (htail : ∀ op ∈ tail, op.harmless = true) :
+    disciplined path s0 (atomicTrace fd tmp path trunc chunks tail) = true ∧
+      published path s0 (atomicTrace fd tmp path trunc chunks tail) = [chunks.flatten] := by
+  have hlt : ∀ i, s0.dir path = some i → i < s0.next := fun i hi => (hq.2 i hi).1
+  -- the part before the rename only concerns the temporary file
+  let pre : List Op := chunks.map (Op.write fd) ++ [.fsync fd, .close fd]
+  have hpre_local : ∀ op ∈ pre, op.localTo fd tmp = true := by
+    intro op hop
+    simp only [pre, List.mem_append, List.mem_map, List.mem_cons, List.not_mem_nil, or_false] at hop
+    rcases hop with ⟨c, _, rfl⟩ | rfl | rfl <;> simp [Op.localTo]
+  obtain ⟨ho, hl0⟩ := linv_open fd trunc hne hq hfresh
+  obtain ⟨hd, hp, _⟩ := linv_run hne hlt pre _ hl0 hpre_local
+  -- the state at the rename: the temporary file is complete and clean
+  have h1 := inv1_open fd trunc hq hfresh hne
+  have hend := (inv1_writes chunks [] _ h1).2
+  simp only [List.nil_append] at hend
+  have hc := inv2_close fd (inv2_fsync hend)
+  have hstate : run pre (step s0 (.openF fd tmp true true trunc false)) =
+      step (step (run (chunks.map (Op.write fd)) (step s0 (.openF fd tmp true true trunc false))) (.fsync fd)) (.close fd) := by
+    simp [pre, run]
+  have hsplit : atomicTrace fd tmp path trunc chunks tail =
+      .openF fd tmp true true trunc false :: (pre ++ (.rename tmp path :: tail)) := by
+    simp [atomicTrace, pre]
+  have ht := harmless_disciplined path tail
+  rw [hsplit]
+  constructor
+  · simp only [disciplined, ho, Bool.true_and, disciplined_append, hd, hstate]
+    have hok : opOK (step (step (run (chunks.map (Op.write fd)) (step s0 (.openF fd tmp true true trunc false))) (.fsync fd)) (.close fd))
+        path (.rename tmp path) = true := by
+      simp [opOK, hne, hc.dirTmp, hc.clean]
+    simp [hok, (ht _ htail).1]
+  · simp only [published, pubOf, published_append, hp, hstate, List.nil_append]
+    have : tmp ≠ path := hne
+    simp [hne, hc.dirTmp, hc.cur, (ht _ htail).2]
+
 end TdModel.C31
